@@ -41,6 +41,7 @@ func genBystander(t *rapid.T, label string) RPC {
 			r.HOps = append(r.HOps, MDOp{Kind: "send", Idx: i})
 		}
 	}
+	r.Fuse = genFuse(t, label)
 	return r
 }
 
